@@ -6,8 +6,10 @@ open Foundation Foundation.Dispatch Driver
 structure S where
   cfg : Option Config
   ms : List Method
+  openS : Bool := false      -- a swap begun here is on the ledger
+  openM : Bool := false      -- a multi-swap begun here is on the ledger
 
-def init : S := ⟨none, []⟩
+def init : S := ⟨none, [], false, false⟩
 
 def kindOf : String → Kind
   | "tx" => .tx | "nbtx" => .nbtx | _ => .query
@@ -59,13 +61,39 @@ def classify (s : S) (ident route fn sender : String) : String :=
 
 def step (s : S) : List String → S × String
   | ["reset"] => (init, "ok")
-  | ["methods", t] => (⟨s.cfg, parseMethods t⟩, "ok")
+  | ["methods", t] => ({ s with ms := parseMethods t }, "ok")
   | ["cfg", _robotmode, disabled, swaps, mswaps, hasopts] =>
-    (⟨some ⟨"ROBOT", "admin", hasopts = "1", (if disabled = "-" then [] else disabled.splitOn "+"), swaps = "1", mswaps = "1"⟩, s.ms⟩, "ok")
+    ({ s with cfg := some ⟨"ROBOT", "admin", hasopts = "1", (if disabled = "-" then [] else disabled.splitOn "+"), swaps = "1", mswaps = "1"⟩ }, "ok")
   | ["readmin", who] =>
     (match s.cfg with
-      | some c => ⟨some { c with admin := who }, s.ms⟩
+      | some c => { s with cfg := some { c with admin := who } }
       | none => s, "ok")
+  | ["recfg", swaps, mswaps] =>
+    (match s.cfg with
+      | some c => { s with cfg := some { c with disableSwaps := swaps = "1", disableMultiSwaps := mswaps = "1" } }
+      | none => s, "ok")
+  | ["openswap", k] =>
+    (match s.cfg with
+    | none => (s, "err")
+    | some c =>
+      if isMethodDisabled c (if k = "s" then "TxSwapBegin" else "TxMultiSwapBegin") then (s, "err")
+      else (if k = "s" then { s with openS := true } else { s with openM := true }, "ok"))
+  | ["keys", k, key] =>
+    (match s.cfg with
+    | none => (s, "err batch")
+    | some c =>
+      let isOpen := if k = "s" then s.openS else s.openM
+      let r := fun (b : Bool) => if b then "1" else "0"
+      if !sectionRuns c (if k = "s" then .swapKeys else .multiKeys) then (s, s!"n=0 e=0 rec={r isOpen}")
+      else if isOpen ∧ key = "right" then
+        (if k = "s" then { s with openS := false } else { s with openM := false }, "n=1 e=0 rec=0")
+      else (s, s!"n=1 e=1 rec={r isOpen}"))
+  | ["answers", k, _] =>
+    (match s.cfg with
+    | none => (s, "err batch")
+    | some c =>
+      if !sectionRuns c (if k = "s" then .swapAnswers else .multiAnswers) then (s, "n=0 e=0 rec=0")
+      else (s, "n=1 e=0 rec=1"))
   | ["call", ident, route, fn, sender] =>
     let o := classify s ident route fn sender
     (s, if o = "bad-op" ∨ o = "bad-route" then "bad-op" else o)
@@ -81,6 +109,7 @@ def clause : List String → String
     if fn = "batchExecute" ∨ robotFns.contains fn ∨ lf = "batchExecute" ∨ robotFns.contains lf then "robot_only"
     else "identity_or_disabled_gate"
   | "init" :: _ => "init_admin_ou_only"
+  | "keys" :: _ | "answers" :: _ => "disabled_kind_in_batch"
   | _ => "setup"
 
 def judge : Machine := judgeOf machine clause
